@@ -34,6 +34,7 @@ MODE_STMT = {"normal": "pass", "closeOut": "sys.stdout.close()", "exc": "raise V
              "x:warn": "raise Warning('w')", "x:stopasync": "raise StopAsyncIteration", "x:argsnonstr": "raise ValueError(1, [2], {3: 4})",
              "x:tuplekey": "raise KeyError(('a', 1))",
              # exception classes that resist being inspected or annotated
+             "x:syntaxStrLine": "raise SyntaxError('m', ('answer.py', '1', '2', 'text'))", "x:strExits": "raise StrExits()",
              "x:noSetattr": "raise NoSetattr('x')", "x:noGetattr": "raise NoGetattr('x')", "x:slots": "raise Slotted('x')",
              "x:argsProp": "raise ArgsProp('x')", "x:keySub": "raise KeySub('k')",
              "x:chained": (["try:", "    1 / 0", "except ZeroDivisionError as e:", "    raise ValueError('second') from e"], 3),
@@ -59,6 +60,7 @@ MODE_CLASS = {"exc": "ValueError", "excBrokenStr": "BrokenStr", "excBrokenRepr":
               "x:indent": "IndentationError", "x:noname": "", "x:lowername": "oops", "x:group": "ExceptionGroup",
               "x:unicode": "UnicodeEncodeError", "x:memory": "MemoryError", "x:notimpl": "NotImplementedError",
               "x:warn": "Warning", "x:stopasync": "StopAsyncIteration", "x:argsnonstr": "ValueError", "x:tuplekey": "KeyError",
+              "x:syntaxStrLine": "SyntaxError", "x:strExits": "StrExits",
               "x:noSetattr": "NoSetattr", "x:noGetattr": "NoGetattr", "x:slots": "Slotted", "x:argsProp": "ArgsProp", "x:keySub": ("KeySub", "KeyError"),
               "x:chained": "ValueError", "x:ctxchained": "NameError", "x:importRaises": "ValueError", "x:importExit": "SystemExit",
               "x:importFnRaises": "KeyError", "x:fromImport": "KeyError", "x:importCustomInit": "TwoArgs", "x:importUse": "KeyError"}
@@ -66,7 +68,7 @@ MODE_CLASS = {"exc": "ValueError", "excBrokenStr": "BrokenStr", "excBrokenRepr":
 STUDENT_LINE = {"exc", "excBrokenStr", "excBrokenRepr", "raiseSysExit", "sysexit", "x:keyBare", "x:key", "x:zero",
                 "x:name", "x:type", "x:index", "x:attr", "x:assert", "x:bareexc", "x:args2", "x:custominit",
                 "x:oserror", "reraise", "nested", "x:noname", "x:lowername", "x:group", "x:unicode", "x:memory", "x:notimpl",
-                "x:warn", "x:stopasync", "x:argsnonstr", "x:tuplekey", "x:noSetattr", "x:noGetattr", "x:slots", "x:argsProp", "x:keySub", "x:chained", "x:ctxchained", "x:syntaxBare"}
+                "x:warn", "x:stopasync", "x:argsnonstr", "x:tuplekey", "x:strExits", "x:noSetattr", "x:noGetattr", "x:slots", "x:argsProp", "x:keySub", "x:chained", "x:ctxchained", "x:syntaxBare"}
 PRELUDE = """import sys
 ask = input
 saved_out = sys.stdout
@@ -78,6 +80,9 @@ class BrokenRepr(Exception):
         raise RuntimeError('no repr for you')
 class MyBase(BaseException):
     pass
+class StrExits(Exception):
+    def __str__(self):
+        raise SystemExit(3)
 class NoSetattr(Exception):
     def __setattr__(self, name, value):
         raise RuntimeError('hands off')
